@@ -79,6 +79,9 @@ def gen_plan(prop, seed, index, tier="quick"):
         "metadata_max_age_ms": r.choice([300, 1000, 300000]),
         "consumer_timeout_ms": r.choice([20, 200]),
     }
+    # (a request queued behind a long-poll Fetch on the same connection waits for it: the
+    # request timeout has to be well above the fetch wait, as the client's documentation asks)
+    kwargs["fetch_max_wait_ms"] = min(kwargs["fetch_max_wait_ms"], rt // 2 - 50)
     api = {}
     if prop == "C13":
         lo_max = r.choice([0, 1, 2, 3, 3])
@@ -245,7 +248,9 @@ class Ref:
         # the answer is at most one network trip old): how old is "about to receive"
         delays = [f["do"]["delay"] for f in plan.get("faults", [])
                   if isinstance(f.get("do"), dict) and "delay" in f["do"]]
-        self.slack = 4 * plan["cluster"]["lat"][1] + 0.002 + (max(delays) if delays else 0.0)
+        # (the model records a reply when it computes it; it leaves service_time later)
+        self.slack = 4 * plan["cluster"]["lat"][1] + 0.002 + (max(delays) if delays else 0.0) \
+            + 2 * plan["cluster"].get("service_time", 0.0)
         self.reset_call_t = {}  # tp -> virtual time of the seek_to_*() call being answered
         world.subscribe("list_offsets_reply", self._on_lo)
 
@@ -668,8 +673,13 @@ def execute(plan):
                     except (asyncio.TimeoutError, Errors.KafkaError):
                         continue
                     ref.on_position(tp, pos)
+                    # Pin the model to the position the client has adopted - but not while that
+                    # is still the sought offset itself: whether it is in range *now* says
+                    # nothing, a fetch for it may have been answered OFFSET_OUT_OF_RANGE before
+                    # the log grew (the next delivery tells which way the client went).
+                    sought = ref.seek_marks.get(tp, (None,))[0]
                     if ref.E[tp] is not None and ref.oor_possible.get(tp) and \
-                            not ref.out_of_range(tp, pos):
+                            not ref.out_of_range(tp, pos) and pos != sought:
                         ref.E[tp] = pos
                         ref.oor_possible[tp] = False
             left = {tp: ref.remaining(tp) for tp in tps if tp in ref.E}
